@@ -141,7 +141,11 @@ impl NetcodeServer {
             connect_key,
             max_clients: config.max_clients,
             challenge_sequence: 0,
-            global_sequence: 0,
+            // Packets sent before a client is connected (challenge, denied) are sealed with the same
+            // server to client key as the connection packets, whose sequence starts at 0.
+            // Start the global sequence in the upper half (as the reference implementation does),
+            // so the same nonce is never used twice with a key.
+            global_sequence: 1 << 63,
             challenge_key,
             public_addresses: config.public_addresses,
             current_time: config.current_time,
